@@ -136,6 +136,9 @@ int main(void)
 	return 0;
 }
 #elif WHAT == 3
+#if KS == 2
+#include "src/symcipher/aes_big_dec.c"
+#endif
 #define NK (KLEN / 4)
 #define NR (NK + 6)
 /*
@@ -190,18 +193,29 @@ int main(void)
 #elif KS == 2
 	{	/* aes_big decryption schedule: the encryption schedule (decided by
 		   KS 1 to be FIPS-197 KeyExpansion) with InvMixColumns applied to the
-		   inner round keys (FIPS-197 5.3.5).  Word-level back end: the
-		   schedule inside br_aes_big_keysched_inv and the one computed here
-		   are the same terms. */
+		   inner round keys (FIPS-197 5.3.5 / 5.3.3: rows of the circulant
+		   matrix {0e,0b,0d,09}).  The GF(2^8) constant multipliers are the
+		   file's own mule/mulb/muld/mul9, decided == multiplication by
+		   14/11/13/9 for all 256 inputs in query aes-big-tables-dec; a
+		   word-level back end is used so that the schedule computed inside
+		   br_aes_big_keysched_inv and the one computed here are the same terms. */
 		uint32_t sk[60], se[60];
 		unsigned nr = br_aes_big_keysched_inv(sk, key, KLEN);
 		CHECK(nr == NR, "br_aes_big_keysched_inv returns the round count");
 		br_aes_keysched(se, key, KLEN);
-		words_to_bytes(rk, se, 4 * (NR + 1));
-		for (int i = 4; i < 4 * NR; i++) ref_mix_column(rk + 4 * i, 1);
-		for (int i = 0; i < 4 * (NR + 1); i++)
-			CHECK(sk[i] == ((uint32_t)rk[4 * i] << 24 | (uint32_t)rk[4 * i + 1] << 16 | (uint32_t)rk[4 * i + 2] << 8 | rk[4 * i + 3]),
-				"br_aes_big_keysched_inv == br_aes_keysched with InvMixColumns on the inner round keys");
+		for (int i = 0; i < 4 * (NR + 1); i++) {
+			uint32_t e = se[i];
+			if (i >= 4 && i < 4 * NR) {
+				unsigned a0 = e >> 24, a1 = (e >> 16) & 0xFF, a2 = (e >> 8) & 0xFF, a3 = e & 0xFF;
+				unsigned b0 = mule(a0) ^ mulb(a1) ^ muld(a2) ^ mul9(a3);
+				unsigned b1 = mul9(a0) ^ mule(a1) ^ mulb(a2) ^ muld(a3);
+				unsigned b2 = muld(a0) ^ mul9(a1) ^ mule(a2) ^ mulb(a3);
+				unsigned b3 = mulb(a0) ^ muld(a1) ^ mul9(a2) ^ mule(a3);
+				e = (uint32_t)b0 << 24 | (uint32_t)b1 << 16 | (uint32_t)b2 << 8 | b3;
+			}
+			CHECK(sk[i] == e, "br_aes_big_keysched_inv == br_aes_keysched with InvMixColumns on the inner round keys only");
+		}
+		(void)rk;
 		WITNESS_POINT("decryption key schedule");
 		return 0;
 	}
